@@ -113,7 +113,7 @@ def gen_probe(hdr, prelude_structs, header_name, prelude_name):
          'int: "i32", unsigned int: "u32", long: "i64", unsigned long: "u64", long long: "i64", unsigned long long: "u64", '
          'float: "f32", double: "f64", default: "struct")',
          '#define PV(x) _Generic((x), char*: pstr, const char*: pstr, float: pdbl, double: pdbl, default: pint)(x)',
-         'static void pstr(const char* s){ printf("S %s\\n", s); }', 'static void pdbl(double d){ printf("D %.17g\\n", d); }',
+         'static void pstr(const char* s){ printf("H "); for (const unsigned char* b = (const unsigned char*)s; *b; b++) printf("%02x", *b); printf("\\n"); }', 'static void pdbl(double d){ printf("D %.17g\\n", d); }',
          'static void pint(long long v){ printf("I %lld\\n", v); }',
          'static void hexdump(const void* p, size_t n){ const unsigned char* b = p; for (size_t i = 0; i < n; i++) printf("%02x", b[i]); printf("\\n"); }',
          'int main(void){']
@@ -208,7 +208,8 @@ def load_c(header_path, prelude_path, scratch, sanitize=False):
         elif p[0] == "DEF":
             kind = p[2]
             val = " ".join(p[3:])
-            defines[p[1]] = int(val) if kind == "I" else float(val) if kind == "D" else val
+            # (strings are printed as hex: they may hold line ends and other control characters)
+            defines[p[1]] = int(val) if kind == "I" else float(val) if kind == "D" else bytes.fromhex(val).decode("utf-8", "replace") if kind == "H" else val
     return {"ok": True, "structs": structs, "defines": defines, "samples": samples, "typedefs": hdr["typedefs"], "decl": hdr["structs"],
             "prelude_decl": pre["structs"], "raw_defines": hdr["defines"]}
 
@@ -358,6 +359,20 @@ def ml_eval(expr, env):
         return {"kind": "rep", "elem": ml_eval(m.group(1), env), "n": int(m.group(2))}
     if re.fullmatch(r"RTMA(\.\w+)+", expr):
         return ml_get(env, expr.split(".")[1:], expr)
+    if expr.startswith('"') and re.search(r'" \+ char\(\d+\)', expr):
+        # a string built from literals and character codes: "text" + char(9) + "more" (string + char gives a string)
+        out, rest = "", expr
+        while rest:
+            m = re.match(r'"((?:[^"]|"")*)"|char\((\d+)\)', rest)
+            if not m:
+                raise MatlabError(f"statement form outside the emulated subset: {expr[:80]!r}")
+            out += m.group(1).replace('""', '"') if m.group(2) is None else chr(int(m.group(2)))
+            rest = rest[m.end():]
+            if rest:
+                if not rest.startswith(" + "):
+                    raise MatlabError(f"statement form outside the emulated subset: {expr[:80]!r}")
+                rest = rest[3:]
+        return {"kind": "str", "v": out}
     if len(expr) >= 2 and expr[0] in "\"'" and expr[-1] == expr[0]:
         # MATLAB string / char literal: the delimiter inside the text is written twice; a lone one ends the literal
         q, body = expr[0], expr[1:-1]
